@@ -37,21 +37,17 @@ theorem MMap.fresh_append (ms : List Meth) (m : Meth) :
 /-- a registration turns ANY state satisfying the invariant for `ms0` into one satisfying it for `ms0 ++ [m]`:
     nothing cached survives (`StBlank.of_cleared`) -/
 theorem MMap.register_inv (cfg : Cfg) (ms0 : List Meth) (m : Meth) (mm : MMap)
-    (h : MInv cfg ms0 (MMap.fresh ms0).empty mm) :
-    MInv cfg (ms0 ++ [m]) (MMap.fresh (ms0 ++ [m])).empty (mm.register m) := by
-  refine ⟨?_, ?_, (StBlank.of_cleared mm.st).inv _⟩
-  · show mm.meths ++ [m] = ms0 ++ [m]
-    rw [h.meths]
-  · rw [MMap.fresh_append]
-    show (if m.params.isEmpty then some m.id else mm.empty) =
-      (if m.params.isEmpty then some m.id else (MMap.fresh ms0).empty)
-    rw [h.empty]
+    (h : MInv cfg ms0 mm) :
+    MInv cfg (ms0 ++ [m]) (mm.register m) := by
+  refine ⟨?_, (StBlank.of_cleared mm.st).inv _⟩
+  show mm.meths ++ [m] = ms0 ++ [m]
+  rw [h.meths]
 
 theorem MMap.runOps_inv (cfg : Cfg) : ∀ (ops : List TOp) (ms0 : List Meth) (mm : MMap),
-    DistinctHandlers (ms0 ++ regsOf ops) → MInv cfg ms0 (MMap.fresh ms0).empty mm →
-    MInv cfg (ms0 ++ regsOf ops) (MMap.fresh (ms0 ++ regsOf ops)).empty (MMap.runOps cfg mm ops)
+    DistinctHandlers (ms0 ++ regsOf ops) → MInv cfg ms0 mm →
+    MInv cfg (ms0 ++ regsOf ops) (MMap.runOps cfg mm ops)
   | [], ms0, mm, _, h => by
-    show MInv cfg (ms0 ++ []) (MMap.fresh (ms0 ++ [])).empty mm
+    show MInv cfg (ms0 ++ []) mm
     rw [List.append_nil]; exact h
   | .reg m :: rest, ms0, mm, hd, h => by
     have e : ms0 ++ regsOf (.reg m :: rest) = (ms0 ++ [m]) ++ regsOf rest := by
@@ -62,7 +58,7 @@ theorem MMap.runOps_inv (cfg : Cfg) : ∀ (ops : List TOp) (ms0 : List Meth) (mm
   | .get ck :: rest, ms0, mm, hd, h => by
     have hd0 : DistinctHandlers ms0 := hd.left
     have ok := plan_ok cfg ms0 hd0.ids hd0.codes
-    exact MMap.runOps_inv cfg rest ms0 _ hd (MMap.lookup_spec cfg ms0 _ ok mm h ck).2
+    exact MMap.runOps_inv cfg rest ms0 _ hd (MMap.lookup_spec cfg ms0 ok mm h ck).2
 
 /-- table level: after ANY interleaving of registrations and lookups (succeeding, ambiguous, unmatched,
     continuation keys), a lookup returns what it returns on a brand-new table on which the same entries were
@@ -70,10 +66,10 @@ theorem MMap.runOps_inv (cfg : Cfg) : ∀ (ops : List TOp) (ms0 : List Meth) (mm
 theorem C05_table (cfg : Cfg) (ops : List TOp) (hd : DistinctHandlers (regsOf ops)) (ck : CKey Key) :
     ((MMap.runOps cfg {} ops).lookup cfg ck).2 = ((MMap.fresh (regsOf ops)).lookup cfg ck).2 := by
   have ok := plan_ok cfg (regsOf ops) hd.ids hd.codes
-  have h0 : MInv cfg [] (MMap.fresh []).empty {} := MMap.fresh_inv cfg []
+  have h0 : MInv cfg [] {} := MMap.fresh_inv cfg []
   have h1 := MMap.runOps_inv cfg ops [] {} (by rw [List.nil_append]; exact hd) h0
   rw [List.nil_append] at h1
-  rw [(MMap.lookup_spec cfg _ _ ok _ h1 ck).1, (MMap.lookup_spec cfg _ _ ok _ (MMap.fresh_inv cfg _) ck).1]
+  rw [(MMap.lookup_spec cfg _ ok _ h1 ck).1, (MMap.lookup_spec cfg _ ok _ (MMap.fresh_inv cfg _) ck).1]
 
 /-- operations on an overloaded function -/
 inductive FOp | reg (d : Def) | unreg (id : Nat) | call (c : Call)
@@ -205,7 +201,7 @@ def Good (cfg : Cfg) (fn : Fn) : Prop :=
   fn = Fn.fresh fn.defns ∨
   (fn.compiled = true ∧ ∃ ana, analyze (fn.defns.map (·.1.d)) = .ok ana ∧
     (DistinctHandlers (Fn.methsOf fn.defns) →
-      FInv cfg fn.defns ana (MMap.fresh (Fn.methsOf fn.defns)).empty fn))
+      FInv cfg fn.defns ana fn))
 
 /-- `_update()`: recompile when already compiled -/
 def Fn.update (fn' : Fn) : Fn × Option Outcome :=
@@ -314,13 +310,13 @@ theorem Fn.call_good (cfg : Cfg) (fn : Fn) (c : Call) (hg : Good cfg fn) : Good 
         intro hd
         rw [e1, e2]
         have ok := plan_ok (Fn.cfgOf cfg fn.defns) (Fn.methsOf fn.defns) hd.ids hd.codes
-        exact (call_rel cfg _ ana _ ok _ _ (Fn.built_inv cfg _ ana) (Fn.built_inv cfg _ ana) c).inv1
+        exact (call_rel cfg _ ana ok _ _ (Fn.built_inv cfg _ ana) (Fn.built_inv cfg _ ana) c).inv1
   · have hs := Fn.call_struct cfg fn hc c
     refine Or.inr ⟨hs.2.trans hc, ana, by rw [hdef]; exact ha, ?_⟩
     rw [hdef]
     intro hd
     have ok := plan_ok (Fn.cfgOf cfg fn.defns) (Fn.methsOf fn.defns) hd.ids hd.codes
-    exact (call_rel cfg _ ana _ ok fn fn (hi hd) (hi hd) c).inv1
+    exact (call_rel cfg _ ana ok fn fn (hi hd) (hi hd) c).inv1
 
 theorem Fn.runOps_good (cfg : Cfg) : ∀ (ops : List FOp) (fn : Fn), Good cfg fn →
     Fn.opsAccepted cfg fn ops = true → Good cfg (Fn.runOps cfg fn ops)
@@ -353,7 +349,7 @@ theorem C05_fn (cfg : Cfg) (ops : List FOp) (hacc : Fn.opsAccepted cfg {} ops = 
     rw [e1]
     exact ⟨rfl, rfl⟩
   · rw [Fn.call_fresh_ok cfg _ ana ha c]
-    have r := call_rel cfg _ ana _ ok fn (Fn.built fn.defns ana) (hi hd) (Fn.built_inv cfg _ ana) c
+    have r := call_rel cfg _ ana ok fn (Fn.built fn.defns ana) (hi hd) (Fn.built_inv cfg _ ana) c
     exact ⟨r.outcome, r.trace⟩
 
 /-- without unregistrations the resulting definitions are exactly what registering the same functions in the
